@@ -161,9 +161,11 @@ def _mkv(pool, op):
         kw = {"attributes": {"idx": idx}}
         if uid is not None:
             kw["uid"] = uid  # user-assigned uid: nothing makes uids unique
-        if links:
+        # an EMPTY container is passed explicitly as often as it is left out ("no links yet" is not "links=None")
+        explicit_empty = ckind != "list" or idx % 2 == 0
+        if links or explicit_empty:
             kw["links"] = _as_container(ls, ckind)
-        if unis:
+        if unis or (explicit_empty and idx % 3 != 1):
             kw["universes"] = _as_container(us, ckind)
         return cls(**kw)
 
@@ -180,7 +182,7 @@ def _mku(pool, op):
 
     def t():
         kw = {"attributes": {"idx": idx}}
-        if verts:
+        if verts or ckind != "list" or idx % 2 == 0:
             kw["vertices"] = _as_container(vs, ckind)
         if laws is not None:
             kw["laws"] = pool.get(laws)
